@@ -8,17 +8,70 @@ use pushr::push::random::CodeGenerator;
 use std::collections::BTreeSet;
 
 fn sparsities() -> Vec<f32> {
-    vec![0.0, 0.1, 0.25, 0.5, 0.75, 0.9, 1.0, -0.1, 1.1, f32::NAN, f32::INFINITY, f32::NEG_INFINITY]
+    vec![
+        0.0, 0.1, 0.25, 0.5, 0.75, 0.9, 1.0, -0.1, 1.1, f32::NAN, f32::INFINITY, f32::NEG_INFINITY,
+        // just outside the interval, signed zero, shares that round to 0 % / 1 % / 99 % / 100 %, shares whose product with the size is inexact in f32
+        -0.0, f32::from_bits(1.0f32.to_bits() + 1), 1.003, 1.0049, -1e-45, -0.004, 0.004, 0.006, 0.994, 0.996, 0.21, 0.42, 0.58,
+    ]
 }
 
 fn valid_sparsity(s: f32) -> bool {
     s >= 0.0 && s <= 1.0
 }
 
-/// TRUE count within the documented rounding of sparsity * n (the share is rounded to two decimals, then truncated)
+/// The documented rounding: the share of non-default bits, min(s, 1-s), is rounded to a whole percent p; the
+/// number of non-default bits is the whole part of p % of n; the default value is TRUE exactly for s > 0.5.
+/// (When 100*min(s,1-s) lies within 0.001 of a half, either neighbouring percent is accepted.)
 fn count_ok(count: usize, n: usize, s: f32) -> bool {
-    let want = s as f64 * n as f64;
-    (count as f64 - want).abs() <= 1.0 + 0.005 * n as f64 + 1e-6
+    let share = 100.0 * f64::min(s as f64, 1.0 - s as f64);
+    let mut pcts = vec![share.round() as u64];
+    if ((share - share.floor()) - 0.5).abs() < 1e-3 {
+        pcts = vec![share.floor() as u64, share.floor() as u64 + 1];
+    }
+    pcts.iter().any(|p| {
+        let flipped = (p * n as u64 / 100) as usize;
+        let want = if s > 0.5 { n - flipped } else { flipped };
+        count == want
+    })
+}
+
+/// every (size, whole percent) pair of a dense range under the default answers: the TRUE count is exactly
+/// the documented share (the count does not depend on the random answers)
+pub fn counts(ctx: &mut Ctx) {
+    let nmax: usize = if ctx.tier_thorough { 2000 } else { 500 };
+    let mut sizes: Vec<usize> = (0..=nmax).collect();
+    sizes.extend([4096, 10_000]);
+    for n in sizes {
+        let id = match ctx.take() {
+            Some(id) => id,
+            None => continue,
+        };
+        ctx.transitions += 101;
+        ctx.states += 1;
+        let mut problems: Vec<String> = vec![];
+        let mut okey = String::new();
+        for pct in 0..=100u32 {
+            let s = pct as f32 / 100.0;
+            let (r, _log) = scripted(&[], 10_000_000, || CodeGenerator::random_bool_vector(n as i32, s).map(|v| v.values));
+            match r {
+                Err(p) => problems.push(format!("size {} sparsity {}: {}", n, s, panic_class(&p))),
+                Ok(None) => problems.push(format!("size {} sparsity {}: no vector", n, s)),
+                Ok(Some(bits)) => {
+                    let cnt = bits.iter().filter(|b| **b).count();
+                    okey = format!("{}", cnt);
+                    if bits.len() != n {
+                        problems.push(format!("size {} sparsity {}: length {}", n, s, bits.len()));
+                    } else if !count_ok(cnt, n, s) {
+                        let p = std::cmp::min(pct, 100 - pct) as usize;
+                        problems.push(format!("size {} sparsity {}: {} TRUE bits; {} % of {} is {} non-default bits", n, s, cnt, p, n, p * n / 100));
+                    }
+                }
+            }
+        }
+        let v = if problems.is_empty() { Verdict::Pass } else { Verdict::fail("random_bool_vector", "true-count", problems[..problems.len().min(4)].join("; ")) };
+        ctx.nontrivial_mark(&format!("{}|{}", n, okey));
+        ctx.record(id, &format!("{}|{}", n, okey), v, || format!("random_bool_vector size {} x sparsity 0.00..1.00", n));
+    }
 }
 
 pub fn boolvec(ctx: &mut Ctx) {
@@ -451,6 +504,7 @@ pub fn run_family(ctx: &mut Ctx, f: &str) {
         "vectors" => vectors(ctx),
         "instr" => instructions(ctx),
         "history" => history(ctx),
+        "counts" => counts(ctx),
         f => panic!("unknown family {}", f),
     }
 }
